@@ -48,6 +48,10 @@ def shards(tier, seed):
     nprod = 4 if tier == "quick" else 12
     for i in range(nprod):
         out.append({"kind": "products", "part": i, "parts": nprod})
+    # multiplication (stack key buffer of the native layer) on the ASan+UBSan build
+    for i in range(1 if tier == "quick" else 3):
+        out.append({"kind": "products", "flavour": "asan", "part": i, "parts": 8 if tier == "quick" else 3,
+                    "asan": True})
     nrand = 3 if tier == "quick" else 8
     for i in range(nrand):
         out.append({"kind": "random", "part": i, "n": 500 if tier == "quick" else 5000})
